@@ -1,3 +1,4 @@
+import F3.Proofs.SkelTieBls
 import F3.Proofs.SkelTieGpbft
 import F3.Proofs.InstanceDecision
 import F3.Proofs.ParticipantInv
@@ -524,4 +525,20 @@ theorem code_structure_as_modelled :
   ⟨F3.SkelTie.SkelGpbft.skelQueueAdd_expected, F3.SkelTie.SkelGpbft.skelQueueDrain_expected, F3.SkelTie.SkelGpbft.skelReceiveMessage_expected, F3.SkelTie.SkelGpbft.skelHandleDecision_expected, F3.SkelTie.SkelGpbft.skelReceiveOne_expected, F3.SkelTie.SkelGpbft.skelPostReceive_expected, F3.SkelTie.SkelGpbft.skelTryQuality_expected, F3.SkelTie.SkelGpbft.skelTryConverge_expected, F3.SkelTie.SkelGpbft.skelTryPrepare_expected, F3.SkelTie.SkelGpbft.skelTryCommit_expected, F3.SkelTie.SkelGpbft.skelTryDecide_expected, F3.SkelTie.SkelGpbft.skelBeginDecide_expected, F3.SkelTie.SkelGpbft.skelSkipToRound_expected, F3.SkelTie.SkelGpbft.skelTryRebroadcast_expected, F3.SkelTie.SkelGpbft.skelReceiveEachPrefix_expected, F3.SkelTie.SkelGpbft.skelFindStrongQuorumFor_expected, F3.SkelTie.SkelGpbft.skelBeginInstance_expected, F3.SkelTie.SkelGpbft.skelReceiveAlarm_expected, F3.SkelTie.SkelGpbft.skelHasBase_expected, F3.SkelTie.SkelGpbft.skelTipSetEqual_expected, F3.SkelTie.SkelGpbft.skelChainEq_expected, F3.SkelTie.SkelGpbft.skelReceiveMany_expected, F3.SkelTie.SkelGpbft.skelShouldSkipToRound_expected⟩
 
 end Skeletons
+end F3.Props.C03
+
+namespace F3.Props.C03
+section SkeletonsBls
+
+/-- the real BLS verifier / aggregator (trusted base: ideal signatures in the model) still has the statement
+structure it had when it was taken into the trusted base -/
+theorem signature_backend_structure_as_trusted :
+    F3.Gen.SkelBls.skelBlsAggregate = F3.SkelTie.SkelBls.skelBlsAggregateExpected ∧
+    F3.Gen.SkelBls.skelBlsVerifyAggregate = F3.SkelTie.SkelBls.skelBlsVerifyAggregateExpected ∧
+    F3.Gen.SkelBls.skelBlsNewAggregate = F3.SkelTie.SkelBls.skelBlsNewAggregateExpected ∧
+    F3.Gen.SkelBls.skelBlsVerify = F3.SkelTie.SkelBls.skelBlsVerifyExpected ∧
+    F3.Gen.SkelBls.skelBlsPubkeyToPoint = F3.SkelTie.SkelBls.skelBlsPubkeyToPointExpected :=
+  ⟨F3.SkelTie.SkelBls.skelBlsAggregate_expected, F3.SkelTie.SkelBls.skelBlsVerifyAggregate_expected, F3.SkelTie.SkelBls.skelBlsNewAggregate_expected, F3.SkelTie.SkelBls.skelBlsVerify_expected, F3.SkelTie.SkelBls.skelBlsPubkeyToPoint_expected⟩
+
+end SkeletonsBls
 end F3.Props.C03
